@@ -15,7 +15,7 @@ EXTRA = [
 
 def run(tier, seed):
     V = common.Verdict("C10", tier, seed)
-    configs = ["K17"] if tier == "quick" else ["K17", "K20"]
+    configs = ["K17", "K20"] if tier == "quick" else ["K17", "K20"]
     info = {}
     for cfg in configs:
         try:
